@@ -1158,7 +1158,19 @@ impl Interpreter {
             }
             VmResult::SuspendForOrder(order_suspension) => {
                 // Order suspension - waiting for host to provide a value
+                let already_answered = self
+                    .order_responses
+                    .contains_key(&order_suspension.order_id);
                 self.suspended_for_order = Some(order_suspension);
+                // An order issued earlier (a marker from a batch) may have been answered before
+                // the program came to wait for it: with nothing new to report there is nothing
+                // for the host to do, the next step resumes with the stored answer
+                if already_answered
+                    && self.pending_orders.is_empty()
+                    && self.cancelled_orders.is_empty()
+                {
+                    return Ok(StepResult::Continue);
+                }
                 let pending = mem::take(&mut self.pending_orders);
                 let cancelled = mem::take(&mut self.cancelled_orders);
                 Ok(StepResult::Suspended { pending, cancelled })
@@ -1402,7 +1414,19 @@ impl Interpreter {
             }
             VmResult::SuspendForOrder(order_suspension) => {
                 // Order suspension - waiting for host to provide a value
+                let already_answered = self
+                    .order_responses
+                    .contains_key(&order_suspension.order_id);
                 self.suspended_for_order = Some(order_suspension);
+                // An order issued earlier (a marker from a batch) may have been answered before
+                // the program came to wait for it: with nothing new to report there is nothing
+                // for the host to do, the next step resumes with the stored answer
+                if already_answered
+                    && self.pending_orders.is_empty()
+                    && self.cancelled_orders.is_empty()
+                {
+                    return Ok(StepResult::Continue);
+                }
                 let pending = mem::take(&mut self.pending_orders);
                 let cancelled = mem::take(&mut self.cancelled_orders);
                 Ok(StepResult::Suspended { pending, cancelled })
